@@ -55,8 +55,8 @@ Inductive pdu :=
 | PMetadata (h : hdr) (closure : bool) (cktype : Z) (fsize : Z)
             (names : option (path * path))           (* source name, dest name; None = metadata only *)
             (msgs : list Z)                          (* messages to user, abstract codes *)
-| PEof (h : hdr) (cond : Z) (cksum : bytes) (fsize : Z) (fault_loc : option Z)
-| PFinished (h : hdr) (cond deliv fstatus : Z) (fault_loc : option Z)
+| PEof (h : hdr) (cond : Z) (cksum : bytes) (fsize : Z) (fault_loc : option (Z * Z))   (* value, width *)
+| PFinished (h : hdr) (cond deliv fstatus : Z) (fault_loc : option (Z * Z))
 | PAck (h : hdr) (acked : Z) (cond : Z) (status : Z)
 | PNak (h : hdr) (sos eos : Z) (reqs : list (Z * Z))
 | PKeepAlive (h : hdr) (progress : Z)
@@ -86,10 +86,10 @@ Definition pdu_len (p : pdu) : Z :=
   match p with
   | PFileData h _ d => hdr_len h + fss_len h + zlen d + crc_len h
   | PMetadata h _ _ _ _ _ => 0                          (* not modelled: exempt from the length bound *)
-  | PEof h _ _ _ fl => hdr_len h + 2 + 4 + fss_len h + (match fl with Some _ => 2 + h_idw h | None => 0 end) + crc_len h
+  | PEof h _ _ _ fl => hdr_len h + 2 + 4 + fss_len h + (match fl with Some (_, w) => 2 + w | None => 0 end) + crc_len h
   | PFinished h c _ _ fl =>
       hdr_len h + 2 +
-      (match fl with Some _ => if (c =? C_NO_ERROR) || (c =? C_UNSUPPORTED_CHECKSUM) then 0 else 2 + h_idw h | None => 0 end)
+      (match fl with Some (_, w) => if (c =? C_NO_ERROR) || (c =? C_UNSUPPORTED_CHECKSUM) then 0 else 2 + w | None => 0 end)
       + crc_len h
   | PAck h _ _ _ => hdr_len h + 3 + crc_len h
   | PNak h _ _ r => hdr_len h + 1 + 2 * fss_len h + zlen r * (2 * fss_len h) + crc_len h
@@ -132,7 +132,7 @@ Definition timed_out (now : Z) (t : timer) : bool := snd t <=? now - fst t.
 Inductive event :=
 | EvTransaction (src seq : Z) (orig : option (Z * Z))
 | EvEofSent (src seq : Z)
-| EvFinished (src seq : Z) (cond deliv fstatus : Z) (fault_loc : option Z)
+| EvFinished (src seq : Z) (cond deliv fstatus : Z) (fault_loc : option (Z * Z))
 | EvMetadataRecv (src seq : Z) (source_id : Z) (fsize : option Z) (names : option (path * path)) (msgs : list Z)
 | EvSegmentRecv (src seq : Z) (offset len : Z)
 | EvEofRecv (src seq : Z)
